@@ -465,6 +465,43 @@ def check_received(ctx, fname, sent_args, sent_kwargs, args, kwargs):
         ctx.issue('received_args_alias', fname=fname)
 
 
+class _CallableInstance:
+    def __init__(self, f):
+        self._f = f
+
+    def __call__(self, *a, **k):
+        return self._f(*a, **k)
+
+
+class _Holder:
+    def __init__(self, f):
+        self._f = f
+
+    def method(self, *a, **k):
+        return self._f(*a, **k)
+
+
+def callable_shape(ctx, fn):
+    """the user's function in one of the shapes a callable can have (plain function, functools.partial,
+    callable instance, bound method, lambda): the library may only call it"""
+    if not ctx.real:
+        return fn
+    with ctx.lock:
+        ctx._shape_n = getattr(ctx, '_shape_n', 0) + 1
+        n = ctx._shape_n
+    k = n % 11
+    if k == 3:
+        import functools
+        return functools.partial(fn)
+    if k == 5:
+        return _CallableInstance(fn)
+    if k == 7:
+        return _Holder(fn).method
+    if k == 9:
+        return lambda *a, **kw: fn(*a, **kw)
+    return fn
+
+
 def unrepresentable(p):
     if '\0' in p:
         return True
@@ -516,9 +553,9 @@ def call_bf(ctx, fr, s):
     try:
         if o.get('cmp'):
             fc = FileComparison.HASH if o['cmp'] == 'H' else FileComparison.METADATA
-            ret = fr.b.build_file_with_comparison(pth, fc, fname, fn, *sent_args, **sent_kwargs)
+            ret = fr.b.build_file_with_comparison(pth, fc, fname, callable_shape(ctx, fn), *sent_args, **sent_kwargs)
         else:
-            ret = fr.b.build_file(pth, fname, fn, *sent_args, **sent_kwargs)
+            ret = fr.b.build_file(pth, fname, callable_shape(ctx, fn), *sent_args, **sent_kwargs)
     except Exception as e:
         ctx.mark('done', ckey)
         ctx.pop_call(ckey, e)
@@ -616,7 +653,7 @@ def call_sb(ctx, fr, s):
         ckey = ('sb', fname)
     ctx.push_call(ckey)
     try:
-        ret = fr.b.subbuild(fname, fn, *sent_args, **sent_kwargs)
+        ret = fr.b.subbuild(fname, callable_shape(ctx, fn), *sent_args, **sent_kwargs)
     except Exception as e:
         ctx.mark('done', ckey)
         ctx.pop_call(ckey, e)
